@@ -16,7 +16,7 @@ from pyvc.setmodel import SSet
 from pyvc.interp import PyRaise
 
 I = z3.IntSort()
-P = ("C17", "C07")
+P = ("C17", "C07", "C10")
 Q = "Network.add_reaction_from_file"
 KROME_DEFAULTS = {"reacformat": "idx,r,r,r,p,p,p,p,tmin,tmax,rate", "_user_commons": [], "_user_vars": []}
 
@@ -160,7 +160,7 @@ def _register():
     from naunet.network import Network
     from naunet.reactions.kromereaction import KROMEReaction
     register(Unit("network_file_loop", __name__, lambda props=(): FileCtx(props), entry,
-                  functions=[Network.add_reaction_from_file, KROMEReaction.initialize], props=("C17", "C07")))
+                  functions=[Network.add_reaction_from_file, KROMEReaction.initialize], props=("C17", "C07", "C10")))
 
 
 _register()
